@@ -339,10 +339,13 @@ def _trace_points(stmt, with_parser, occurrences=2):
             events.append((filename, frame.f_lineno))
         return tracer
 
+    # (the connection is made outside the traced region, exactly as in _preempted: the event indexes must line up)
+    conn = ledger.connect(preempt_ledger(), ledger.default_options())
+
     def run():
         _sys.settrace(tracer)
         try:
-            _outcome(ledger.connect(preempt_ledger(), ledger.default_options()), stmt)
+            _outcome(conn, stmt)
         finally:
             _sys.settrace(None)
     t = threading.Thread(target=run)
